@@ -161,7 +161,11 @@ UNIT_SIZE = {'unknown-attrs': 4, 'unknown-attrs-extlen': 5, 'many-nlri': 4, 'man
 
 def plan(tier, seed):
     n = 16 if tier == 'quick' else 64
-    return [{'shard': i, 'inputs': 1500 if tier == 'quick' else 30000} for i in range(n)]
+    # every fourth shard runs with every log call evaluating its lazy message (debug logging): formatters are code too
+    return [{'shard': i, 'inputs': 1500 if tier == 'quick' else 30000, 'loud': i % 4 == 3} for i in range(n)]
+
+
+LOUD = False
 
 
 def run_one(res, sensor, mtype, body, nb, neg, cls, sk, must_decode, wit_extra=None, K=None):
@@ -205,18 +209,28 @@ def run_one(res, sensor, mtype, body, nb, neg, cls, sk, must_decode, wit_extra=N
             res.violation(f'C03/undefined-code:{code}/{sub}', f'{tname} refused with undefined NOTIFICATION {code}/{sub}', wit, full)
         else:
             res.ok(full, (tname, cls, sk['name'], code, sub))
+    elif outcome[0] == 'budget' and LOUD:
+        # with every log message evaluated the parser dumps the remaining NLRI bytes once per NLRI (quadratic by design of the
+        # debug output): cost is not judged on these shards, only the exception class
+        res.count('loud:step-budget-reached')
     elif outcome[0] == 'budget':
         res.violation(f'C03/step-budget:{tname}:{cls}', f'{tname} of {len(body)} bytes needed more than 2M function entries', wit, full)
     else:
         res.violation(f'C03/raises:{outcome[1]}:{where}', f'{tname} ({cls}) raised {outcome[1]} in {where}', wit, full)
-    if K is not None and outcome != ('budget',) and steps > K * (len(body) + 1):
+    if K is not None and not LOUD and outcome != ('budget',) and steps > K * (len(body) + 1):
         res.violation(f'C03/superlinear:{tname}:{cls}', f'{steps} function entries for {len(body)} bytes (bound {K}/byte)', wit, full)
     return outcome, steps, depth
 
 
 def run_shard(desc):
     res = Result()
-    exa.quiet()
+    global LOUD
+    if desc.get('loud'):
+        exa.loud()
+        LOUD = True
+        desc = dict(desc, inputs=max(60, desc['inputs'] // 6))
+    else:
+        exa.quiet()
     r = random.Random(desc['seed'] * 2654435761 % (2**31) + desc['shard'])
     sensor = reach.Steps()
     sensor.install()
@@ -334,6 +348,8 @@ def run_shard(desc):
         unit = UNIT_SIZE[kind] + (4 if (ap4 and kind in ('many-nlri', 'many-withdraw')) or (ap6 and kind == 'many-mp-nlri') else 0)
         kmax = max(8, (maxsize - 200) // unit)
         ks = sorted({8, 64, 256, min(1000, kmax), kmax if kmax < 20000 else 8000})
+        if LOUD:
+            ks = [8, 64]
         base = None
         for k in ks:
             if k > kmax:
@@ -349,7 +365,9 @@ def run_shard(desc):
                 continue
             k0, s0, d0 = base
             wit = {'kind': kind, 'k0': k0, 'steps0': s0, 'depth0': d0, 'k': k, 'steps': steps, 'depth': depth, 'session': sk['name']}
-            if steps > 3 * (k / k0) * s0 + 2000:
+            if LOUD:
+                res.count('loud:scaling-not-judged')
+            elif steps > 3 * (k / k0) * s0 + 2000:
                 res.violation(f'C03/scaling:{kind}', f'{kind}: steps {s0}@{k0} -> {steps}@{k} (more than 3x linear)', wit, f'scaling:{kind}')
             else:
                 res.ok(f'scaling:{kind}', ('scaling', kind, k))
@@ -358,6 +376,11 @@ def run_shard(desc):
             else:
                 res.ok(f'depth:{kind}', ('depth', kind, k))
     res.sample({'K_steps_per_byte': K, 'sessions': sorted(built)}, limit=1)
+    if desc.get('loud'):
+        from exabgp.logger import log
+
+        res.extra['log_messages_evaluated'] = log.evaluated['n']
+        res.ok('debug-logging-on', None, 1) if log.evaluated['n'] else res.inconclusive.append('loud shard evaluated no log message')
     return res
 
 
